@@ -83,7 +83,7 @@ func runLookupInBubble(t *testing.T, sc *Scenario, ch sim.Chooser) []sim.Ev {
 		"rt", rt, "seeds", sim.Ints(seeds), "reject", sim.Ints(sc.Reject), "conn", conn,
 		"count", sc.Count, "quorum", sc.Quorum, "localval", sc.LocalVal, "localprv", sim.Ints(sc.LocalPrv),
 		"putval", sc.PutVal, "lvvalid", lvOK, "lvrank", lvRank, "pvvalid", pvOK, "pvrank", pvRank,
-		"timeout", sc.Timeout*1000, "optprov", sc.OptProv, "honest", sc.Honest, "full", sc.Full, "selfrank", e.u.SelfRank(), "scr", scriptsForTrace(sc), "ts", 0)
+		"timeout", sc.Timeout*1000, "optprov", sc.OptProv, "slowcons", sc.SlowCons, "honest", sc.Honest, "full", sc.Full, "selfrank", e.u.SelfRank(), "scr", scriptsForTrace(sc), "ts", 0)
 
 	regCtx, regCancel := context.WithCancel(context.Background())
 	lctx, lev := dht.RegisterForLookupEvents(regCtx)
@@ -163,7 +163,18 @@ func runLookupInBubble(t *testing.T, sc *Scenario, ch sim.Chooser) []sim.Ev {
 		if i == len(items) {
 			cancelled = true
 			tr.Add("Cancel", "ts", e.now())
+			// a cancelled caller stops consuming slowly (it just drains)
+			e.fastCons = true
+			for _, it := range items {
+				if it.Kind == "consume" {
+					e.gate.Release(it, nil)
+				}
+			}
 			opCancel()
+			continue
+		}
+		if items[i].Kind == "consume" {
+			e.gate.Release(items[i], nil)
 			continue
 		}
 		e.release(items[i])
@@ -325,6 +336,9 @@ func nearPeers(key string, k int) []peer.ID {
 }
 
 func failOutcome(it *sim.Parked) any {
+	if it.Kind == "consume" {
+		return nil
+	}
 	if it.Kind == "dial" {
 		return fmt.Errorf("sim: shutdown")
 	}
@@ -382,7 +396,12 @@ func (e *lookupEnv) runOp(ctx context.Context) {
 			return
 		}
 		last := ""
-		for v := range ch {
+		for {
+			e.consumeTurn()
+			v, ok := <-ch
+			if !ok {
+				break
+			}
 			last = string(v)
 			ok, rk := valRank(v)
 			tr.AddBuf(3, "", "Emit", "val", string(v), "p", -1, "naddrs", 0, "valid", ok, "rank", rk, "ts", e.now())
@@ -393,7 +412,12 @@ func (e *lookupEnv) runOp(ctx context.Context) {
 	case "findprov":
 		ch := d.FindProvidersAsync(ctx, e.cid, sc.Count)
 		got := []int{}
-		for ai := range ch {
+		for {
+			e.consumeTurn()
+			ai, ok := <-ch
+			if !ok {
+				break
+			}
 			got = append(got, e.u.Rank(ai.ID))
 			tr.AddBuf(3, "", "Emit", "val", "", "p", e.u.Rank(ai.ID), "naddrs", len(ai.Addrs), "valid", false, "rank", -1, "ts", e.now())
 		}
@@ -423,6 +447,14 @@ func (e *lookupEnv) runOp(ctx context.Context) {
 		tr.AddBuf(3, "", "Return", "err", errClass(err), "selflocal", selfLocal, "ts", e.now())
 	default:
 		panic("unknown op " + sc.Op)
+	}
+}
+
+// consumeTurn makes the consumer of a result channel wait for the scheduler
+// before every receive (slow consumer scenarios).
+func (e *lookupEnv) consumeTurn() {
+	if e.sc.SlowCons && !e.fastCons {
+		_, _ = e.gate.Park(nil, "consume", "zzzz/consume", nil)
 	}
 }
 
